@@ -75,14 +75,14 @@ def load_known(prop):
 
 
 def write_replay(prop, kind, payload):
-    d = os.path.join(VERIF, 'replays', prop)
+    d = os.path.join(os.environ.get('VERIF_REPLAY_DIR') or os.path.join(VERIF, 'replays'), prop)
     os.makedirs(d, exist_ok=True)
     body = json.dumps(payload, indent=1, sort_keys=True, default=str)
     h = hashlib.sha1(body.encode()).hexdigest()[:12]
     path = os.path.join(d, f'{kind}-{h}.json')
     with open(path, 'w') as f:
         f.write(body + '\n')
-    return os.path.relpath(path, VERIF)
+    return os.path.relpath(path, VERIF) if path.startswith(VERIF + os.sep) else path
 
 
 def main():
@@ -148,6 +148,13 @@ def main():
             n = sum(len(v) for v in lean.source_theorems(mods).values())
             audit = {'obligations': n, 'discharged': 0, 'failures': ['build failed'], 'axioms': set(),
                      'theorems': [], 'modules': mods}
+    # thorough tier: independent re-check of the compiled proof modules
+    if build_ok and not args.no_build and args.tier == 'thorough':
+        rc_lc, out_lc, _ = lean.run(['lake', 'env', 'leanchecker'] + audit['modules'])
+        audit['leanchecker'] = 'ok' if rc_lc == 0 else out_lc[-1500:]
+        if rc_lc != 0:
+            audit['failures'].append('leanchecker rejected the compiled modules: ' + out_lc[-1500:])
+            proof_notes.append(audit['failures'][-1])
     proof_ok = build_ok and audit is not None and not audit['failures'] and audit['obligations'] > 0 \
         and audit['discharged'] == audit['obligations']
     if args.no_build:
